@@ -380,13 +380,17 @@ func cmpHolds(x *big.Int, op token.Token, y *big.Int) bool {
 	return false
 }
 
+// wordBits: the width of int/uint/uintptr assumed by the range reasoning (64; the thorough tier
+// repeats the panic-site rules with 32 for information).
+var wordBits uint = 64
+
 func intTypeRange(t types.Type) (lo, hi *big.Int, ok bool) {
 	b, isb := t.Underlying().(*types.Basic)
 	if !isb || b.Info()&types.IsInteger == 0 {
 		return nil, nil, false
 	}
-	bits := map[types.BasicKind]uint{types.Int8: 8, types.Int16: 16, types.Int32: 32, types.Int64: 64, types.Int: 64,
-		types.Uint8: 8, types.Uint16: 16, types.Uint32: 32, types.Uint64: 64, types.Uint: 64, types.Uintptr: 64,
+	bits := map[types.BasicKind]uint{types.Int8: 8, types.Int16: 16, types.Int32: 32, types.Int64: 64, types.Int: wordBits,
+		types.Uint8: 8, types.Uint16: 16, types.Uint32: 32, types.Uint64: 64, types.Uint: wordBits, types.Uintptr: wordBits,
 		types.UntypedInt: 64, types.UntypedRune: 32}[b.Kind()]
 	if bits == 0 {
 		return nil, nil, false
